@@ -1797,7 +1797,78 @@ def s_spec_to_string(m, st, info, args):
 
 @summary(r"std::str::from_utf8", r"core::str::from_utf8", r"core::str::converts::from_utf8")
 def s_str_from_utf8(m, st, info, args):
-    return mk_ok(m, ret_ty(m, info), m.bytes_to_str(args[0]))
+    tid = ret_ty(m, info)
+    v = args[0]
+    if isinstance(v, Ptr) and v.meta is not None and v.meta[0] == "slice":
+        cont = m.read_loc(Loc(v.cell, v.path))
+        if isinstance(cont, VecVal) and type(cont) is not ByteArr:
+            items = cont.items[v.meta[1]:v.meta[1] + v.meta[2]]
+            if any(not isinstance(x, tuple) for x in items):
+                return _from_utf8_items(m, st, tid, items)
+    return mk_ok(m, tid, m.bytes_to_str(v))
+
+
+def _from_utf8_items(m, st, tid, items):
+    """validate raw bytes (concrete, or symbolic and ASCII on the path): Ok(&str) or Err(Utf8Error)"""
+    out = []
+    raw = []
+    pos = 0  # byte offset of the start of `raw`
+
+    def flush():
+        # returns None or (valid_up_to, error_len | None)
+        if not raw:
+            return None
+        try:
+            out.extend(ord(ch) for ch in bytes(raw).decode("utf-8"))
+        except UnicodeDecodeError as e:
+            elen = None if e.reason == "unexpected end of data" else (e.end - e.start)
+            return (pos + e.start, elen)
+        return None
+
+    err = None
+    off = 0
+    for x in items:
+        if isinstance(x, tuple) and x[0] == "ch":
+            c = x[1]
+            if isinstance(c, int):
+                raw.extend(chr(c).encode("utf-8"))
+                off += len(chr(c).encode("utf-8"))
+                continue
+            raise Unsupported("from_utf8 over symbolic code-point items mixed with raw bytes")
+        if isinstance(x, int):
+            if not raw:
+                pos = off
+            raw.append(x)
+            off += 1
+            continue
+        xb = bv(x, 8)
+        if m.feasible(st, z3.UGE(xb, z3.BitVecVal(0x80, 8))):
+            raise Unsupported("from_utf8 over possibly non-ASCII symbolic bytes (not modelled)")
+        err = flush()
+        if err is not None:
+            if err[1] is None:
+                # an incomplete sequence followed by an ASCII byte: invalid, length = what was there
+                err = (err[0], len(raw) - (err[0] - pos))
+            break
+        del raw[:]
+        out.append(simp(z3.ZeroExt(24, xb)))
+        off += 1
+    if err is None:
+        err = flush()
+    if err is None:
+        return mk_ok(m, tid, StrRef(out))
+    ev = variant_index(m, tid, "Err")
+    ety = field_ty(m, tid, ev, 0)
+    et = m.p.types[ety]
+    fields = et["variants"][0]["fields"]
+    vals = []
+    for f in fields:
+        if f["name"] == "valid_up_to":
+            vals.append(err[0])
+        else:
+            oty = f["ty"]
+            vals.append(mk_none(m, oty) if err[1] is None else mk_some(m, oty, err[1]))
+    return mk_err(m, tid, Agg(ety, 0, vals))
 
 
 @summary(r"std::str::from_utf8_unchecked", r"core::str::from_utf8_unchecked", r"core::str::converts::from_utf8_unchecked")
@@ -2164,3 +2235,184 @@ def s_trim(m, st, info, args):
 def s_map_clone(m, st, info, args):
     mp = map_of(m, args[0])
     return MapVal([[copy_value(k), copy_value(v)] for k, v in mp.entries])
+
+
+# ---------------------------------------------------------------------------
+# encoding_rs (foreign table-driven / SIMD code): value-level stub, ASCII only.
+# `Encoding::decode` of a byte string whose every byte is < 0x80 on the path
+# (decided by the solver) is the identity for every ASCII-compatible encoding
+# (UTF-8, windows-125x, ISO-8859-x, ... - all that `for_label` can return except
+# UTF-16LE/BE, ISO-2022-JP and "replacement"); no BOM can occur in ASCII.
+# Anything else is Unsupported (-> inconclusive, never a verdict).
+
+_ASCII_INCOMPATIBLE = ("UTF-16LE", "UTF-16BE", "ISO-2022-JP", "replacement")
+_CP1252_HI = [0x20AC, 0x81, 0x201A, 0x0192, 0x201E, 0x2026, 0x2020, 0x2021, 0x02C6, 0x2030, 0x0160, 0x2039, 0x0152, 0x8D, 0x017D, 0x8F,
+              0x90, 0x2018, 0x2019, 0x201C, 0x201D, 0x2022, 0x2013, 0x2014, 0x02DC, 0x2122, 0x0161, 0x203A, 0x0153, 0x9D, 0x017E, 0x0178]
+
+
+def _cp1252(x):
+    if isinstance(x, int):
+        return _CP1252_HI[x - 0x80] if 0x80 <= x < 0xA0 else x
+    xb = bv(x, 8)
+    wide = z3.ZeroExt(24, xb)
+    t = wide
+    for i, cp in enumerate(_CP1252_HI):
+        t = z3.If(xb == z3.BitVecVal(0x80 + i, 8), z3.BitVecVal(cp, 32), t)
+    return simp(t)
+
+
+@summary(r"encoding_rs::Encoding::decode")
+def s_encoding_rs_decode(m, st, info, args):
+    """value-level model of `Encoding::decode` (BOM sniffing + decode_without_bom_handling): UTF-8 (concrete bytes
+    any, symbolic bytes ASCII; ill-formed parts -> U+FFFD), windows-1252 (any byte, the WHATWG index), every other
+    ASCII-compatible encoding on ASCII bytes only."""
+    enc = deref(m, args[0])
+    name = None
+    if isinstance(enc, Agg) and enc.f:
+        try:
+            name = const_str(as_str(m, enc.f[0]))
+        except Unsupported:
+            name = None
+    if name is None or name in _ASCII_INCOMPATIBLE:
+        raise Unsupported("encoding_rs decode for encoding %r (only ASCII-compatible encodings are modelled)" % (name,))
+    cont, a, n = slice_view(m, args[1])
+    items = []
+    for x in cont.items[a:a + n]:
+        if isinstance(x, tuple) and x[0] == "ch":
+            if not isinstance(x[1], int) or x[1] >= 0x80:
+                raise Unsupported("encoding_rs decode over code-point items")
+            x = x[1]
+        items.append(x)
+    # BOM sniffing: decided on the first three bytes
+    had_bom = False
+    head = items[:3]
+    if any(not isinstance(x, int) for x in head):
+        for x in head:
+            if not isinstance(x, int) and m.feasible(st, z3.UGE(bv(x, 8), z3.BitVecVal(0x80, 8))):
+                raise Unsupported("encoding_rs decode: symbolic bytes where a BOM could be (not modelled)")
+    else:
+        if head[:3] == [0xEF, 0xBB, 0xBF]:
+            name, items, had_bom = "UTF-8", items[3:], True
+        elif head[:2] in ([0xFF, 0xFE], [0xFE, 0xFF]):
+            raise Unsupported("encoding_rs decode: UTF-16 BOM (not modelled)")
+    if name == "UTF-8":
+        chars = _bytes_to_chars_lossy(m, st, items, "encoding_rs UTF-8 decode")
+    elif name == "windows-1252":
+        chars = [_cp1252(x) for x in items]
+    else:
+        chars = []
+        for x in items:
+            if isinstance(x, int):
+                if x >= 0x80:
+                    raise Unsupported("encoding_rs decode of non-ASCII bytes in %s (not modelled)" % name)
+                chars.append(x)
+            else:
+                xb = bv(x, 8)
+                if m.feasible(st, z3.UGE(xb, z3.BitVecVal(0x80, 8))):
+                    raise Unsupported("encoding_rs decode of possibly non-ASCII symbolic bytes in %s (not modelled)" % name)
+                chars.append(simp(z3.ZeroExt(24, xb)))
+    rt = ret_ty(m, info)
+    cow_t = m.p.types[rt]["tys"][0]
+    cow = Agg(cow_t, variant_index(m, cow_t, "Owned"), [StrBuf(chars)])
+    had_errors = any(isinstance(c, int) and c == 0xFFFD for c in chars) and name == "UTF-8"
+    enc_ptr = args[0]
+    if had_bom:
+        # the second tuple field is the encoding actually used; xot ignores it
+        enc_ptr = args[0]
+    return Agg(rt, 0, [cow, enc_ptr, had_errors])
+
+
+@summary(r"std::str::<impl str>::replace", r"alloc::str::<impl str>::replace")
+def s_str_replace(m, st, info, args):
+    """str::replace(pattern: &str | char, to: &str): leftmost non-overlapping matches, decided per position."""
+    s = list(as_str(m, args[0]))
+    pat = args[1]
+    if isinstance(pat, (StrRef, StrBuf, Ptr)):
+        p = list(as_str(m, pat))
+    elif isinstance(pat, int) or is_sym(pat):
+        p = [pat]
+    else:
+        raise Unsupported("str::replace with pattern %r" % (pat,))
+    to = list(as_str(m, args[2]))
+    if not p:
+        raise Unsupported("str::replace with an empty pattern")
+    out = []
+    i = 0
+    while i < len(s):
+        if i + len(p) <= len(s) and m.decide(chars_eq(s[i:i + len(p)], p), "replace-match"):
+            out.extend(to)
+            i += len(p)
+        else:
+            out.append(s[i])
+            i += 1
+    return StrBuf(out)
+
+
+def _bytes_to_chars_lossy(m, st, items, what):
+    """UTF-8 bytes -> code points, U+FFFD for ill-formed parts (maximal-subpart rule, which Rust's Utf8Chunks and
+    Python's 'replace' handler both follow). Symbolic bytes must be ASCII on the path."""
+    out = []
+    raw = []
+
+    def flush():
+        if raw:
+            out.extend(ord(ch) for ch in bytes(raw).decode("utf-8", errors="replace"))
+            del raw[:]
+
+    for x in items:
+        if isinstance(x, tuple) and x[0] == "ch":
+            c = x[1]
+            if isinstance(c, int):
+                raw.extend(chr(c).encode("utf-8"))
+            else:
+                flush()
+                out.append(c)
+        elif isinstance(x, int):
+            raw.append(x)
+        else:
+            xb = bv(x, 8)
+            if m.feasible(st, z3.UGE(xb, z3.BitVecVal(0x80, 8))):
+                raise Unsupported("%s over possibly non-ASCII symbolic bytes (not modelled)" % what)
+            flush()
+            out.append(simp(z3.ZeroExt(24, xb)))
+    flush()
+    return out
+
+
+@summary(r"std::string::String::from_utf8_lossy")
+def s_from_utf8_lossy(m, st, info, args):
+    cont, a, n = slice_view(m, args[0])
+    chars = _bytes_to_chars_lossy(m, st, cont.items[a:a + n], "String::from_utf8_lossy")
+    rt = ret_ty(m, info)
+    return Agg(rt, variant_index(m, rt, "Owned"), [StrBuf(chars)])
+
+
+@summary(r"core::str::<impl str>::find::<&str>")
+def s_str_find_str(m, st, info, args):
+    s = list(as_str(m, args[0]))
+    p = list(as_str(m, args[1]))
+    tid = ret_ty(m, info)
+    if not p:
+        return mk_some(m, tid, 0)
+    for i in range(0, len(s) - len(p) + 1):
+        if m.decide(chars_eq(s[i:i + len(p)], p), "find-match"):
+            return mk_some(m, tid, m.str_byte_len(s[:i]))
+    return mk_none(m, tid)
+
+
+@summary(r"(std|alloc)::str::<impl str>::to_lowercase")
+def s_str_to_lowercase(m, st, info, args):
+    """str::to_lowercase, ASCII only (non-ASCII chars need the Unicode tables: not modelled)"""
+    out = []
+    for c in as_str(m, args[0]):
+        if isinstance(c, int):
+            if c >= 0x80:
+                lc = ord(chr(c).lower()) if len(chr(c).lower()) == 1 else None
+                if lc is None or c == 0x3A3:
+                    raise Unsupported("str::to_lowercase over a char with a special mapping")
+                out.append(lc)
+                continue
+        elif m.feasible(st, z3.UGE(c, 0x80)):
+            raise Unsupported("str::to_lowercase over a possibly non-ASCII symbolic char (not modelled)")
+        out.append(_ascii_case(c, False))
+    return StrBuf(out)
